@@ -358,7 +358,10 @@ func grpcStatus(h http.Header) (e *Error, found bool, err error) {
 	if mn > 1 {
 		return nil, true, fmt.Errorf("grpc-message appears %d times", mn)
 	}
-	msg, derr := PercentDecodeStrict(msgRaw)
+	// A field value has no leading or trailing whitespace (RFC 9110 5.5, RFC
+	// 9113 8.2.1): conformant HTTP stacks strip it or refuse the message, so
+	// what a peer is handed is the trimmed value.
+	msg, derr := PercentDecodeStrict(strings.Trim(msgRaw, " \t"))
 	if derr != nil {
 		return nil, true, derr
 	}
@@ -384,9 +387,12 @@ func grpcStatus(h http.Header) (e *Error, found bool, err error) {
 		if st.Code != out.Code {
 			return nil, true, fmt.Errorf("grpc-status-details-bin carries code %d, grpc-status %d", st.Code, out.Code)
 		}
-		// The Status message is authoritative (HTTP/1.1 intermediaries may trim
-		// blanks of the grpc-message header).
-		out.Message = st.Message
+		// grpc-message is what the protocol defines; the Status proto repeats
+		// it, and the two must agree - a peer that knows only the former must
+		// get the text the application supplied.
+		if st.Message != out.Message {
+			return nil, true, fmt.Errorf("grpc-message decodes to %q, the Status in grpc-status-details-bin says %q", out.Message, st.Message)
+		}
 		out.Details = st.Details
 	}
 	return out, true, nil
